@@ -16,6 +16,7 @@ import RosuModel.Model.SuspicionWire
 import RosuModel.Model.StackingWire
 import RosuModel.Model.LifeWire
 import RosuModel.Model.FiniteWire
+import RosuModel.Model.ClockRate
 import RosuModel.Model.PerfCalcWire
 import RosuModel.Model.SliderEventsWire
 import RosuModel.Model.ManiaPatternWire
@@ -72,6 +73,7 @@ def handle (line : String) : String :=
   | ["LIFE", mode, objs, sig, hist] => Lifetime.handleLife mode objs sig hist
   | "GSQ" :: mode :: args => GenState.handleGSQ mode args
   | "C09" :: args => Finite.handleFinite args
+  | ["CRB", x] => ClockRate.handleCRB x
   | "PP" :: args => PerfCalc.handlePP args
   | ["SLEV", st, sd, v, td, tot, sp] => SliderEvents.handleSLEV st sd v td tot sp
   | ["OSLD", v, sm, tr, sl] => SliderEvents.handleOSLD v sm tr sl
